@@ -40,7 +40,7 @@ pub assume_specification[str::trim_start](s: &str) -> (r: &str) ensures r@ == tr
 
 impl AST {
 //@@ FN src/parse/mod.rs | impl FromStr for AST | from_str | props=C19
-//@@ REPLACE pin=4fec5644ac77
+//@@ REPLACE pin=0a226a1025e0
 //@@< let $tokens: Vec<Lex> = tokenize($$) $$ Ok(AST::new($$)) }
 //@@> verif_outline_parse_rest(tokenize($$1)) }
     ensures r == parse_of(lex_of(input@)),                                       //# parsed_tokens_are_the_lexing_of_the_given_text [C19]
